@@ -6,6 +6,6 @@ FUNCTIONS += ['server.Server._trigger_event', 'async_server.AsyncServer._trigger
 FUNCTIONS += ['base_server.BaseServer._generate_sid_cookie']
 
 LEVEL_TEXT = "_handle_connect (threaded and asyncio servers, one contract text) is verified: one id issued, only that id's table entry changes, the connect handler is the first event and runs once, a 401 answer removes the id, a 200 answer has the OPEN packet first with sid/upgrades/pingTimeout/pingInterval/maxPayload equal to the spec function open_info (milliseconds exact), the body is the payload of the packets taken, Set-Cookie exactly when a cookie name is configured; _upgrades equals the statement's upgrade condition"
-LEVEL_NOTE = 'cookie configurations given as dict (boolean / callable attributes) are not modelled; handler contract as in C05'
+LEVEL_NOTE = '_generate_sid_cookie is verified for the plain-name configuration (exact value) and for dict configurations with string / boolean attribute values (no exception escapes, the cookie starts with name=sid); callable attribute values and the dict-cookie branch of _handle_connect are not modelled; handler contract as in C05'
 NOT_DECIDED = ['dict-valued cookie configuration', 'JSONP form of the OPEN response (C19)']
 ASSUMPTIONS = [LEVEL_NOTE]
